@@ -98,7 +98,7 @@ theorem mkCtx_fields {ds : DSetData} {g : Geom} {c : Ctx} (h : mkCtx ds g = .ok 
     c.dset = ds ∧ c.rs = (collectOrbits ds).rs.toList ∧ c.isChain = (collectOrbits ds).isChain.toList ∧
     c.vmins = computeVmins (collectOrbits ds).rs.toList ∧ c.orbitIndex = (collectOrbits ds).index ∧
     baseCurvature ds.size c.vmins c.isChain = .ok c.baseCurv ∧
-    c.minCurv = max g.minCurvature (if c.baseCurv < 0 then c.baseCurv else -curvFac) ∧
+    c.minCurv = max g.minCurvature (if c.baseCurv < 0 then c.baseCurv else Tables.minHypCutoff) ∧
     c.maxCurv = g.maxCurvature ∧
     (c.baseCurv < 0 → c.maps = none) ∧
     (¬ c.baseCurv < 0 → ∃ ms, c.maps = some ms ∧
